@@ -49,14 +49,17 @@ Print Assumptions C15_next_due_is_first_later_boundary.
    on time, late by any amount), either order of equal deadlines, any number of loop iterations.
    The flags are those regenerated from the source; the term only type-checks while all four
    compute to true. *)
+Definition flags_of_source_fixed : flags_fixed src_flags :=
+  (conj (eq_refl : f_guard src_flags = true) (conj (eq_refl : f_clear src_flags = true)
+        (conj (eq_refl : f_clear_base src_flags = true) (conj (eq_refl : f_mono src_flags = true)
+          (conj (eq_refl : f_truth src_flags = true) (eq_refl : f_resolve src_flags = true)))))).
+
 Theorem C15_ticks : forall cfg t0 xs ts pool lats fuel, 0 < c_res cfg ->
   accepted false (c_res cfg) t0 (snd (simulate src_flags cfg t0 xs ts pool lats fuel)).
 Proof.
   exact (fun cfg t0 xs ts pool lats fuel =>
     simulate_accepted src_flags cfg t0 xs ts pool lats fuel
-      (conj (eq_refl : f_guard src_flags = true) (conj (eq_refl : f_clear src_flags = true)
-        (conj (eq_refl : f_mono src_flags = true) (conj (eq_refl : f_truth src_flags = true)
-          (eq_refl : f_resolve src_flags = true)))))).
+      flags_of_source_fixed).
 Qed.
 Print Assumptions C15_ticks.
 
@@ -92,6 +95,23 @@ Theorem C15_timerc_exact : forall strict res t0 a j t r b,
 Proof. exact timerc_exact. Qed.
 Print Assumptions C15_timerc_exact.
 
+(* ... in particular for every history of the model of the checked-out source, callbacks that die through an
+   Exception, asyncio.CancelledError, SystemExit (.x) or KeyboardInterrupt included: the term needs the flag
+   dead_timer_cleared_on_base_exception (class named by the except clause of run) to compute to true *)
+Theorem C15_timerc_exact_on_source : forall cfg t0 xs ts pool lats fuel a j t r b, 0 < c_res cfg ->
+  snd (simulate src_flags cfg t0 xs ts pool lats fuel) = a ++ EvCancel j t r :: b ->
+  (r = true <-> live_history j a).
+Proof.
+  exact (fun cfg t0 xs ts pool lats fuel a j t r b Hres E =>
+    timerc_exact false (c_res cfg) t0 a j t r b
+      (eq_ind _ (accepted false (c_res cfg) t0)
+         (simulate_accepted src_flags cfg t0 xs ts pool lats fuel
+            (conj (eq_refl : f_guard src_flags = true) (conj (eq_refl : f_clear src_flags = true)
+              (conj (eq_refl : dead_timer_cleared_on_base_exception = true) (conj (eq_refl : f_mono src_flags = true)
+                (conj (eq_refl : f_truth src_flags = true) (eq_refl : f_resolve src_flags = true)))))) Hres) _ E)).
+Qed.
+Print Assumptions C15_timerc_exact_on_source.
+
 (* "never before an interval boundary", literally: holds for every history whose ticks were
    dispatched at or after their deadline ... *)
 Theorem C15_strict_holds_outside_early_dispatch : forall cfg t0 xs ts pool lats fuel, 0 < c_res cfg ->
@@ -101,25 +121,22 @@ Proof.
   exact (fun cfg t0 xs ts pool lats fuel Hres Hon =>
     strict_accepts_on_time (c_res cfg) _ (mstate0 t0) Hon
       (simulate_accepted src_flags cfg t0 xs ts pool lats fuel
-        (conj (eq_refl : f_guard src_flags = true) (conj (eq_refl : f_clear src_flags = true)
-          (conj (eq_refl : f_mono src_flags = true) (conj (eq_refl : f_truth src_flags = true)
-            (eq_refl : f_resolve src_flags = true))))) Hres)).
+        flags_of_source_fixed Hres)).
 Qed.
 Print Assumptions C15_strict_holds_outside_early_dispatch.
 
 (* ... which is guaranteed by a hypothesis on the LATENCIES when there is one timer and no external handle:
    every wake-up at or after the earliest deadline ==> every tick at or after the deadline of its handle
-   (any interval, any script incl. self-cancel / raise / redefinition, any fuel) *)
+   (any interval, any script incl. self-cancel / raise / redefinition but no callback leaving through SystemExit / KeyboardInterrupt,
+   which end the loop's batch; any fuel) *)
 Theorem C15_single_timer_on_time : forall cfg t0 gap iv scr lats fuel, 0 < c_res cfg ->
-  Forall (fun l => 0 <= l) lats ->
+  Forall (fun l => 0 <= l) lats -> Forall nofatal scr ->
   Forall tick_on_time (snd (simulate src_flags cfg t0 [] [mk_tspec gap iv scr] [] lats fuel)) /\
   accepted true (c_res cfg) t0 (snd (simulate src_flags cfg t0 [] [mk_tspec gap iv scr] [] lats fuel)).
 Proof.
-  exact (fun cfg t0 gap iv scr lats fuel Hres Hl =>
-    let F := conj (eq_refl : f_guard src_flags = true) (conj (eq_refl : f_clear src_flags = true)
-              (conj (eq_refl : f_mono src_flags = true) (conj (eq_refl : f_truth src_flags = true)
-                (eq_refl : f_resolve src_flags = true)))) in
-    let Hon := single_timer_on_time src_flags cfg t0 gap iv scr lats fuel F Hres Hl in
+  exact (fun cfg t0 gap iv scr lats fuel Hres Hl Hnf =>
+    let F := flags_of_source_fixed in
+    let Hon := single_timer_on_time src_flags cfg t0 gap iv scr lats fuel F Hres Hl Hnf in
     conj Hon (strict_accepts_on_time (c_res cfg) _ (mstate0 t0) Hon
                 (simulate_accepted src_flags cfg t0 [] [mk_tspec gap iv scr] [] lats fuel F Hres))).
 Qed.
@@ -135,7 +152,7 @@ Definition rejected (fl : flags) strict xs ts lats : Prop :=
 (* ... and fails under an event loop that dispatches within its clock resolution before the
    deadline (asyncio's rule): known finding C15-early-within-resolution *)
 Theorem C15_strict_early_refuted :
-  rejected (mk_flags true true true true true) true [] [mk_tspec 0 sec [mk_step 0 yes ANone; default_step]] [-512].
+  rejected (mk_flags true true true true true true) true [] [mk_tspec 0 sec [mk_step 0 yes ANone; default_step]] [-512].
 Proof. vm_compute. reflexivity. Qed.
 
 (* The single-timer hypothesis cannot be dropped: two timers whose boundaries lie within one clock resolution
@@ -143,7 +160,7 @@ Proof. vm_compute. reflexivity. Qed.
    by asyncio's rule, runs the second handle too, 2^-11 s before its boundary. *)
 Theorem C15_on_time_refuted_for_two_timers :
   let lats := [0; 0; 0] in
-  let tr := snd (simulate (mk_flags true true true true true) cfgw 0 []
+  let tr := snd (simulate (mk_flags true true true true true true) cfgw 0 []
                    [mk_tspec 0 sec [mk_step 0 (RNum 0) ANone]; mk_tspec 512 sec [mk_step 0 (RNum 0) ANone]] [] lats 8) in
   Forall (fun l => 0 <= l) lats /\ In (EvTick 1 1048576 1049088 0) tr /\ 1048576 < 1049088.
 Proof.
@@ -152,38 +169,45 @@ Qed.
 
 (* R9, first class (repaired by the guard): cancel-self inside the callback, then return true *)
 Theorem C15_self_cancel_refuted_without_guard :
-  rejected (mk_flags false true true true true) false [] [mk_tspec 0 sec [mk_step 0 yes (ACancel 0); default_step]] [].
+  rejected (mk_flags false true true true true true) false [] [mk_tspec 0 sec [mk_step 0 yes (ACancel 0); default_step]] [].
 Proof. vm_compute. reflexivity. Qed.
 
 (* R9, second class (repaired by clearing the delegate): .timerc after a raising callback returned 1 *)
 Theorem C15_raise_refuted_without_clear :
-  rejected (mk_flags true false true true true) false [(3 * sec, XCancel 0)] [mk_tspec 0 sec [mk_step 0 yes ARaise]] [].
+  rejected (mk_flags true false true true true true) false [(3 * sec, XCancel 0)] [mk_tspec 0 sec [mk_step 0 yes (ARaise RExc)]] [].
 Proof. vm_compute. reflexivity. Qed.
+
+(* `except Exception` instead of `except BaseException`: a callback that leaves through SystemExit (.x(0)),
+   KeyboardInterrupt or asyncio.CancelledError kills the timer but .timerc still returns 1 for it *)
+Theorem C15_base_exception_refuted_without_base_clear :
+  rejected (mk_flags true true false true true true) false [(3 * sec, XCancel 0)] [mk_tspec 0 sec [mk_step 0 yes (ARaise RFatal)]] [] /\
+  rejected (mk_flags true true false true true true) false [(3 * sec, XCancel 0)] [mk_tspec 0 sec [mk_step 0 yes (ARaise RCancelled)]] [].
+Proof. split; vm_compute; reflexivity. Qed.
 
 (* R9, third class (repaired by the monotone re-arm): early dispatch armed the same boundary twice *)
 Theorem C15_early_rearm_refuted_without_mono :
-  rejected (mk_flags true true false true true) false [] [mk_tspec 0 sec [mk_step 0 yes ANone; default_step]] [-512].
+  rejected (mk_flags true true true false true true) false [] [mk_tspec 0 sec [mk_step 0 yes ANone; default_step]] [-512].
 Proof. vm_compute. reflexivity. Qed.
 
 (* Python truth instead of Klong truth (repaired by _is_true): a two-element list is true in Klong, `if r`
    raises after the try block: the timer is dead, no tick follows (the loop goes idle with an alive timer) ... *)
 Theorem C15_list_result_refuted_without_klong_truth :
-  rejected (mk_flags true true true false true) false [] [mk_tspec 0 sec [mk_step 0 (RList 2 true) ANone; default_step]] [].
+  rejected (mk_flags true true true true false true) false [] [mk_tspec 0 sec [mk_step 0 (RList 2 true) ANone; default_step]] [].
 Proof. vm_compute. reflexivity. Qed.
 
 (* ... [] is false in Klong, `if r` raises all the same and leaves the spent handle: .timerc returns 1 for the stopped timer ... *)
 Theorem C15_empty_result_refuted_without_klong_truth :
-  rejected (mk_flags true true true false true) false [(3 * sec, XCancel 0)] [mk_tspec 0 sec [mk_step 0 (RList 0 false) ANone]] [].
+  rejected (mk_flags true true true true false true) false [(3 * sec, XCancel 0)] [mk_tspec 0 sec [mk_step 0 (RList 0 false) ANone]] [].
 Proof. vm_compute. reflexivity. Qed.
 
 (* ... and [0] is true in Klong but stops the timer *)
 Theorem C15_zero_list_result_refuted_without_klong_truth :
-  rejected (mk_flags true true true false true) false [] [mk_tspec 0 sec [mk_step 0 (RList 1 false) ANone; default_step]] [].
+  rejected (mk_flags true true true true false true) false [] [mk_tspec 0 sec [mk_step 0 (RList 1 false) ANone; default_step]] [].
 Proof. vm_compute. reflexivity. Qed.
 
 (* T15.resolve: without the lookup at every call a redefinition would not take effect *)
 Theorem C15_resolve_refuted_without_lookup :
-  rejected (mk_flags true true true true false) false [] [mk_tspec 0 sec [mk_step 0 yes (ARedef 0); default_step]] [].
+  rejected (mk_flags true true true true true false) false [] [mk_tspec 0 sec [mk_step 0 yes (ARedef 0); default_step]] [].
 Proof. vm_compute. reflexivity. Qed.
 
 (* Non-vacuity: a concrete system (two timers, a slow callback that misses two boundaries, a
